@@ -80,17 +80,17 @@ def trees_of(fs):
 
 
 def compare_reload(fs, fs2, model, label, name_pre, desc_pre):
-    names2 = [f["name"] for f in fs2.filters]
+    names2 = [E.fattr(f, "name") for f in fs2.filters]
     exp = [m.name for m in model]
     if names2 != exp:
         return Failure(PROP, "C11.names", "%s: reloaded names %r, expected %r\n%s" % (label, names2, exp, str(fs)), {})
-    en2 = [bool(f["enabled"]) for f in fs2.filters]
+    en2 = [bool(E.fattr(f, "enabled")) for f in fs2.filters]
     if en2 != [m.enabled for m in model]:
         return Failure(PROP, "C11.enabled", "%s: reloaded enabled flags %r, expected %r" % (label, en2, [m.enabled for m in model]), {})
     for f, m in zip(fs2.filters, model):
-        if (f.get("description") or "") != (m.desc or ""):
+        if (E.fattr(f, "description") or "") != (m.desc or ""):
             return Failure(PROP, "C11.desc", "%s: filter %r reloaded with description %r, expected %r\n%s" % (
-                label, m.name, f.get("description"), m.desc, str(fs)), {})
+                label, m.name, E.fattr(f, "description"), m.desc, str(fs)), {})
     if set(fs2.requires) != set(fs.requires):
         return Failure(PROP, "C11.requires", "%s: reloaded requires %r, original %r" % (label, sorted(fs2.requires), sorted(fs.requires)), {})
     try:
